@@ -349,10 +349,24 @@ def r05e(ctx):
     tests = {}
     for name in ("diff", "get_all_edit_contexts"):
         f = m.method(tn, name)
-        w = [x for x in walk_no_nested(f.node) if isinstance(x, ast.While) and any(
-            isinstance(c, ast.Call) and isinstance(c.func, ast.Attribute) and c.func.attr == "tighten_bounds" for c in ast.walk(x.test))]
-        w.sort(key=lambda x: x.lineno)
-        tests[name] = (f, w[0] if w else None)
+        def refine_loops(fn_node):
+            return [x for x in walk_no_nested(fn_node) if isinstance(x, ast.While) and any(
+                isinstance(c, ast.Call) and isinstance(c.func, ast.Attribute) and c.func.attr == "tighten_bounds" for c in ast.walk(x.test))]
+        # (position in f, loop): own loops, and the loops of helpers f calls (a module-level function or a method of the class)
+        cands = [(x.lineno, x) for x in refine_loops(f.node)]
+        for c in walk_no_nested(f.node):
+            if not isinstance(c, ast.Call):
+                continue
+            h = None
+            if isinstance(c.func, ast.Name):
+                r_ = m.resolve_expr(f.module, c.func)
+                h = m.functions.get(r_[0][1]) if r_ and r_[0] and r_[0][0] == "func" else None
+            elif self_attr(c.func):
+                h = m.method(tn, self_attr(c.func))
+            if h is not None and h.node is not f.node and h.node.name not in ("diff", "get_all_edit_contexts", "get_all_edits"):
+                cands += [(c.lineno, x) for x in refine_loops(h.node)]
+        cands.sort(key=lambda t: t[0])
+        tests[name] = (f, cands[0][1] if cands else None)
     if all(v[1] is not None for v in tests.values()):
         def shape(wn):
             recv = next((dotted(c.func.value) for c in ast.walk(wn.test) if isinstance(c, ast.Call)
